@@ -1,5 +1,6 @@
 SPECIFICATION Spec
 CONSTANTS
+  WideSizes = {1023, 1024, 1025, 2000}
   Atoms <- AtomsFull
   AtomsMid <- AtomsMid3
   AtomsDeep <- AtomsDeep1
